@@ -52,9 +52,17 @@ for g in GROUPS:
             env.eq('identity_matrix', S.group_matrix4(env.T, g, I), S.eye(env.T, 4, X[0]))
             # identity_ (in place) produces the same element
             Z = lie(pp, g, X.clone())
-            if hasattr(ltype(pp, g), 'identity_') and g == 'SO3':
-                Z.identity_()
+            # identity_ is implemented for SO3 only on the pinned tree (the other types raise NotImplementedError, which is loud and allowed);
+            # wherever it does return, the element left behind must be the identity of that type, in place
+            try:
+                R_ = Z.identity_()
+                implemented = True
+            except NotImplementedError:
+                implemented = False
+            env.holds('identity_ is implemented for SO3', implemented or g != 'SO3')
+            if implemented:
                 env.eq('identity_inplace', raw(Z), I)
+                env.holds('identity_ returns the tensor it was called on', R_ is Z)
             I2 = raw(pp.identity_like(lie(pp, g, X)))
             env.eq('identity_like', I2, I)
 
